@@ -33,6 +33,12 @@ one (same grid shape and precision, other dx / nu / CFL) and the previous object
 ``compute_stable_timestep`` is called with keyword, positional and default argument; the bare function gets dx as python
 float and (real_t = float32) a float64 velocity array; the diffusion kernels get alpha alternately as python float and real_t.
 
+ONE simulator object is then driven through a history of public-attribute changes (kinematic_viscosity raised and lowered
+by 1-4 decades, cfl changed, velocity replaced incl. zero) with a query after each change, judged against the CURRENT
+attribute values, followed (passive simulators) by a diffusion step with the dt recommended for zero velocity (a limit
+cached at the first query is stale there).  The kernel-level maximum-principle leg hands the SAME scratch flux array object
+(refilled with garbage, ring included) to all 15 calls per shape (a ring reset done only on first sight of an array).
+
 Known genuine defect on the pinned tree (F2): the diffusion limit is ``0.9 dx^2/(2d)/nu + tol`` with
 tol = 10 eps, so nu dt/dx^2 = 0.225 + 10 eps nu/dx^2 when the step is diffusion-limited, e.g.
 float32, dx = 1/256, nu = 0.5: 0.264 > 0.25 -> mechanism ``diffusion-limit-exceeded``.  Silent with
@@ -91,6 +97,9 @@ REQUIRE = {
     "maxprinciple_cells": 20000,
     "maxprinciple_at_limit": 12,
     "ring_cells_compared": 4000,
+    "live_attribute_changes": 200,
+    "maxprinciple_simulator_steps_after_attribute_change": 60,
+    "maxprinciple_kernel_steps_on_reused_scratch_object": 60,
     "sims_sibling_same_shape_other_parameters": 8,
     "sims_rechecked_after_sibling": 8,
     "sims_first_axis_longer_than_x": 8,
@@ -310,6 +319,67 @@ def _run_sim(sh, rec):
             sim.velocity_field[...] = vel
             meta = {**meta0, "velocity": vk}
             _check_dt(rec, lambda p: call_dt(sim, p), sim.velocity_field, d, dx, nu, cfl, real_t, rng, (kind, d, sh["dtype"]), meta)
+        # live attributes on ONE object: viscosity raised / lowered, CFL changed, velocity changed between queries; every
+        # returned dt must satisfy both limits for the CURRENT attribute values (time_step reads the live attributes), and
+        # (passive simulators) a diffusion step with the dt recommended for zero velocity must keep the maximum principle
+        nu_cur, cfl_cur = nu, cfl
+        lim = 0.9 / (2 * d)
+        for hs in range(6 if tier == "quick" else 10):
+            what = ("nu-up", "velocity", "nu-down", "cfl", "nu-up+zero", "cfl+nu-down")[hs % 6]
+            if "nu-up" in what:
+                nu_cur = min(nu_cur * _loguniform(rng, 10.0, 1e4), 1e3)
+                sim.kinematic_viscosity = nu_cur
+            if "nu-down" in what:
+                nu_cur = max(nu_cur / _loguniform(rng, 10.0, 1e4), 1e-9)
+                sim.kinematic_viscosity = nu_cur
+            if "cfl" in what:
+                cfl_cur = 1.0 if rng.random() < 0.2 else _loguniform(rng, 1e-3, 1.0)
+                sim.cfl = cfl_cur
+            if what == "velocity" or "zero" in what:
+                vk = "zero" if "zero" in what else VEL_KINDS[int(rng.integers(len(VEL_KINDS)))]
+                sim.velocity_field[...] = _velocity(rng, vk, d, shape, real_t)
+            else:
+                vk = "unchanged"
+            rec.count("live_attribute_changes")
+            meta = {**meta0, "nu": nu_cur, "cfl": cfl_cur, "velocity": vk, "changed": what, "history_step": hs, "object": "same-object-history"}
+            _check_dt(rec, lambda p: call_dt(sim, p), sim.velocity_field, d, dx, nu_cur, cfl_cur, real_t, rng, (kind, d, sh["dtype"], "live", what), meta)
+            if not kind.startswith("passive"):
+                continue
+            sim.velocity_field[...] = 0
+            try:
+                dt = float(call_dt(sim, 1.0))
+            except Exception as e:
+                rec.violation("compute_stable_timestep-raises", f"{type(e).__name__}: {e} {meta}", {"meta": meta})
+                continue
+            alpha = nu_cur * dt / dx**2
+            if not (np.isfinite(dt) and dt > 0):
+                rec.violation("dt-not-finite-positive", f"dt={dt} {meta}", {"meta": meta})
+                continue
+            if alpha > lim * (1 + 8 * eps):
+                rec.violation("diffusion-limit-exceeded", f"nu*dt/dx^2 = {alpha:.9g} > 0.9/(2*{d}) = {lim:.6g} with zero velocity after changing {what} on the same object {meta}", {"meta": meta})
+                dt = lim * dx**2 / nu_cur * (1 - 4 * eps)
+                alpha = nu_cur * dt / dx**2
+            fk = FIELD_KINDS[hs % 4]
+            f0 = _mp_field(rng, sim.primary_field.shape, fk, real_t)
+            sim.primary_field[...] = f0
+            sims.poison(rng, {"b": sim.buffer_scalar_field})
+            try:
+                sim.time_step(dt)
+            except Exception as e:
+                rec.violation("time_step-raises", f"{type(e).__name__}: {e} {meta}", {"meta": meta, "f": f0})
+                continue
+            new = sim.primary_field
+            comps = [(f0, new)] if new.ndim == d else [(f0[c], new[c]) for c in range(d)]
+            ncell = 0
+            for o, nwf in comps:
+                ncell += _check_maxprinciple(rec, o, nwf, eps, "simulator-diffusion", f"passive simulator step alpha={alpha:.6g} field={fk} after changing {what} {meta}", {"meta": meta, "f": f0, "dt": dt})
+            rec.count("maxprinciple_simulator_steps_after_attribute_change")
+            rec.count("maxprinciple_cells", ncell)
+            if alpha >= 0.99 * lim:
+                rec.count("maxprinciple_at_limit")
+            rec.case(("simulator-live", d, cfg.get("field_type", "scalar"), sh["dtype"], fk, what))
+        nu, cfl = nu_cur, cfl_cur
+        meta0 = {**meta0, "nu": nu, "cfl": cfl}
         if sibling:
             # ... and the FIRST object again after its sibling was built and used
             psim, pmeta, pdx, pnu, pcfl = prev
@@ -318,11 +388,9 @@ def _run_sim(sh, rec):
                       {**pmeta, "velocity": "noise", "object": "first-after-sibling"})
             rec.count("sims_rechecked_after_sibling")
         prev = (sim, meta0, dx, nu, cfl)
-        if not kind.startswith("passive"):
-            continue
         # maximum principle through the simulator: zero velocity, dt as recommended by the simulator
         lim = 0.9 / (2 * d)
-        for fk in FIELD_KINDS:
+        for fk in (FIELD_KINDS if kind.startswith("passive") else ()):
             sim.velocity_field[...] = 0
             p = 1.0 if rng.random() < 0.6 else float(rng.uniform(0.05, 1.0))
             dt = float(sim.compute_stable_timestep(dt_prefac=p))
@@ -411,6 +479,10 @@ def _run_mp(sh, rec):
             shape = util.shape2d(rng, 3, 40) if d == 2 else util.shape3d(rng, 3, 18)
             if k == 0:
                 shape = (3,) * (d - 1) + (int(rng.integers(4, 12)),)
+            # ONE scratch flux array OBJECT per shape, refilled with garbage (ring included) before every call: the 2nd, 3rd, ...
+            # call on the same array object must reset its ghost ring just like the first
+            flux = np.empty(shape, real_t)
+            ncalls_on_flux = 0
             for fk in FIELD_KINDS:
                 for ak in ("limit", "below", "tiny"):
                     if ak == "limit":
@@ -424,7 +496,10 @@ def _run_mp(sh, rec):
                     full = shape if variant == "scalar" else (d, *shape)
                     f0 = _mp_field(rng, full, fk, real_t)
                     f = f0.copy()
-                    flux = (1e3 * rng.standard_normal(shape)).astype(real_t)
+                    flux[...] = (1e3 * rng.standard_normal(shape)).astype(real_t)
+                    ncalls_on_flux += 1
+                    if ncalls_on_flux >= 2:
+                        rec.count("maxprinciple_kernel_steps_on_reused_scratch_object")
                     meta = {"path": "kernel", "dim": d, "variant": variant, "dtype": sh["dtype"], "shape": shape, "field": fk, "alpha": float(alpha)}
                     nmp[0] += 1
                     a_arg = float(alpha) if nmp[0] % 2 else alpha  # same value as python float / as real_t
